@@ -114,6 +114,7 @@ func CheckReclaim(w *World, rec *CycleRecord) ([]Finding, ReclaimFacts) {
 			res      [3]float64
 		}
 		evicted := map[string][3]float64{}
+		replaced := map[string][3]float64{} // pods evicted and placed again by this decision (re-placed victims)
 		var placedPre [3]float64
 		involved := [3]bool{}
 		for k := d.from; k < d.to; k++ {
@@ -127,6 +128,9 @@ func CheckReclaim(w *World, rec *CycleRecord) ([]Finding, ReclaimFacts) {
 					evicted[c.Pod] = ch
 				}
 			} else {
+				if _, was := evicted[c.Pod]; was {
+					replaced[c.Pod] = Charge(pv.Req, caps[c.Node])
+				}
 				delete(evicted, c.Pod) // re-placed in the same decision: not taken
 				if pv.Workload == d.preemptor {
 					ch := Charge(pv.Req, caps[c.Node])
@@ -303,9 +307,54 @@ func CheckReclaim(w *World, rec *CycleRecord) ([]Finding, ReclaimFacts) {
 				}
 				vr := va / vsh.FairShare[r]
 				if rr > 1+tol && rr >= vr+tol {
+					// Shape of the recorded known finding: the ancestor's excess is covered by what other workloads of its
+					// own subtree were given in this same cycle - bound / nominated before this decision, or evicted and
+					// placed again by it - i.e. the reclaim was judged as if those placements were not there.
+					own := 0.0
+					var ownPods []string
+					inSubtree := func(workload string) bool {
+						wl := wls[workload]
+						if wl == nil || workload == d.preemptor {
+							return false
+						}
+						for _, qn := range pathFromRoot(tree, wl.Queue) {
+							if qn.Name == rq {
+								return true
+							}
+						}
+						return false
+					}
+					for pod, ch := range replaced {
+						if pv := rec.Before.ByName[pod]; pv != nil && inSubtree(pv.Workload) {
+							own += ch[r]
+							ownPods = append(ownPods, pod)
+						}
+					}
+					for k := 0; k < d.from; k++ {
+						c := rec.Calls[k]
+						if (c.Kind != "bind" && c.Kind != "pipeline") || c.Err != "" {
+							continue
+						}
+						if _, again := replaced[c.Pod]; again {
+							continue
+						}
+						if pv := rec.Before.ByName[c.Pod]; pv != nil && inSubtree(pv.Workload) {
+							if ch, still := charged[c.Pod]; still {
+								own += ch[r]
+								ownPods = append(ownPods, c.Pod)
+							}
+						}
+					}
+					sort.Strings(ownPods)
+					if own > 0 && rsh.FairShare[r] > 0 && (ra-own)/rsh.FairShare[r] <= 1+tol {
+						out = append(out, Finding{"c07-ancestor-overshoot-covered-by-same-cycle-placements-of-its-subtree", fmt.Sprintf(
+							"after reclaim for %s, queue %s holds %v %s of fair share %v while the sibling %s it took from holds %v of %v: the excess is what %v, other pods of %s's subtree, were given earlier in this cycle (or were evicted and placed again by this decision); decision: %v; before it: %v",
+							d.preemptor, rq, ra, ResNames[r], rsh.FairShare[r], vq, va, vsh.FairShare[r], ownPods, rq, TraceStrings(rec.Calls[d.from:d.to]), TraceStrings(rec.Calls[:d.from])), rec.Index})
+						continue
+					}
 					out = append(out, Finding{"c07-reclaimer-more-saturated-than-victim", fmt.Sprintf(
-						"after reclaim for %s, queue %s holds %v %s of fair share %v (saturation %.3f) while the sibling %s it took from holds %v of %v (saturation %.3f)",
-						d.preemptor, rq, ra, ResNames[r], rsh.FairShare[r], rr, vq, va, vsh.FairShare[r], vr), rec.Index})
+						"after reclaim for %s, queue %s holds %v %s of fair share %v (saturation %.3f) while the sibling %s it took from holds %v of %v (saturation %.3f); decision: %v; before it: %v",
+						d.preemptor, rq, ra, ResNames[r], rsh.FairShare[r], rr, vq, va, vsh.FairShare[r], vr, TraceStrings(rec.Calls[d.from:d.to]), TraceStrings(rec.Calls[:d.from])), rec.Index})
 				}
 			}
 		}
